@@ -166,6 +166,7 @@ package domain
 //@   ensures  SpecIterOK(i) && ok == i.valid
 //@   ensures  ok ==> i.position == old(i.position)-1
 //@   ensures  !ok ==> i.currPtr == old(i.currPtr)
+//@   ensures  i.position <= old(i.position) && i.position >= old(i.position)-1
 //@   modifies &i.valid, &i.currPtr, &i.position
 //@ func (i *Iterator) SeekLE(ctx context.Context, stamp telem.TimeStamp) (ok bool)
 //@   requires SpecIterWF(i) && stamp >= 0 && (i.closed ==> !i.valid)
